@@ -88,8 +88,54 @@ AP_KINDS = ['circular', 'obstructed', 'rectangular', 'hexagonal', 'elliptical', 
             'full', 'sparse', 'zero', 'complex']
 
 
-def gen_perfect_case(rng, big, force=None):
+def _make_grid(case):
+    """The grid of a part-B case: regular (dims/delta/zero) or, for `grid` cases, separated /
+    unstructured with non-constant weights."""
     hp = _hp()
+    g = case.get('grid')
+    if g is None:
+        return hp.CartesianGrid(hp.RegularCoords(case['delta'], case['dims'], case['zero']))
+    if g['kind'] == 'separated':
+        return hp.CartesianGrid(hp.SeparatedCoords([np.array(g['xs']), np.array(g['ys'])]))
+    return hp.CartesianGrid(hp.UnstructuredCoords([np.array(g['x']), np.array(g['y'])]), weights=np.array(g['w']))
+
+
+def gen_weighted_case(rng, directed=False):
+    """Grids whose weights are not constant (outside the property's quantifier, inside the code's
+    domain): the projector is orthogonal in the unweighted product, so `total_power` may grow."""
+    if directed:
+        # the counterexample of `perfectMat_weighted_power_counterexample`
+        grid = {'kind': 'unstructured', 'x': [0.0, 1.0], 'y': [0.0, 0.0], 'w': [1.0, 8.0]}
+        n, order, ap = 2, 2, np.ones(2)
+        fields = [np.array([1.0, 0.0]) + 0j, np.array([0.0, 1.0]) + 0j]
+    else:
+        if rng.random() < 0.6:
+            nx, ny = int(rng.integers(2, 6)), int(rng.integers(2, 6))
+            xs = np.cumsum(2.0 ** rng.integers(-2, 2, nx)) - 1.0
+            ys = np.cumsum(2.0 ** rng.integers(-2, 2, ny)) - 1.0
+            grid = {'kind': 'separated', 'xs': [float(v) for v in xs], 'ys': [float(v) for v in ys]}
+            n = nx * ny
+        else:
+            n = int(rng.integers(2, 13))
+            grid = {'kind': 'unstructured', 'x': [float(v) for v in rng.integers(-8, 9, n) / 4.0],
+                    'y': [float(v) for v in rng.integers(-8, 9, n) / 4.0], 'w': [float(v) for v in 2.0 ** rng.integers(-3, 4, n)]}
+        order = int(rng.choice([2, 4, 6]))
+        ap = [np.ones(n), rng.integers(0, 17, n) / 16.0, rng.integers(-8, 9, n) / 8.0][int(rng.integers(0, 3))]
+        fields = [rng.integers(-64, 65, n) / 16.0 + 1j * rng.integers(-64, 65, n) / 16.0 for _ in range(2)]
+    h = order // 2
+    coeffs = [[(int(rng.integers(-4, 5)) / 2.0) for j in range(i + 1)] for i in range(h)]
+    if all(c == 0 for row in coeffs for c in row):
+        coeffs[0][0] = 1.0
+    return {'part': 'B', 'shape_kind': 'weighted', 'grid': grid, 'dims': [n, 1], 'order': order, 'ap_kind': 'weighted-' + grid['kind'],
+            'ap_re': [float(v) for v in ap], 'ap_im': [0.0] * n,
+            'fields': [{'name': 'random', 're': [float(v) for v in f.real], 'im': [float(v) for v in f.imag]} for f in fields],
+            'poly': coeffs, 'polarised': False}
+
+
+def gen_perfect_case(rng, big, force=None, user=None):
+    hp = _hp()
+    if force == 'weighted' or (force is None and rng.random() < 0.08):
+        return gen_weighted_case(rng)
     shape_kind = str(rng.choice(['square-even', 'square-odd', 'nonsquare', 'tiny', 'pupil-grid']))
     hi = 14 if big else 10
     if shape_kind == 'square-even':
@@ -157,17 +203,35 @@ def gen_perfect_case(rng, big, force=None):
     if all(c == 0 for row in coeffs for c in row):
         coeffs[0][0] = 1.0
     pol = bool(rng.random() < 0.15)
-    return {'part': 'B', 'shape_kind': shape_kind, 'dims': [nx, ny], 'delta': [dx, dy], 'zero': [zx, zy], 'order': order,
+    case = {'part': 'B', 'shape_kind': shape_kind, 'dims': [nx, ny], 'delta': [dx, dy], 'zero': [zx, zy], 'order': order,
             'ap_kind': kind, 'ap_re': [float(v) for v in ap.real], 'ap_im': [float(v) for v in ap.imag],
             'fields': [{'name': nm, 're': [float(v) for v in f.real], 'im': [float(v) for v in f.imag]} for nm, f in fields],
             'poly': coeffs, 'polarised': pol}
+    if user or (user is None and rng.random() < 0.2):
+        case['user_coeffs'] = gen_user_coeffs(rng, order)
+    return case
+
+
+def gen_user_coeffs(rng, order):
+    """`coeffs=` of the constructor (partial suppression): one per mode, h(h+1)/2 of them, dyadic in [0, 2]."""
+    h = order // 2
+    k = h * (h + 1) // 2
+    kind = str(rng.choice(['constant', 'prefix', 'random', 'random']))
+    if kind == 'constant':
+        return {'kind': kind, 'c': [float(rng.integers(0, 9)) / 4.0] * k}
+    if kind == 'prefix':
+        h2 = int(rng.integers(0, h + 1))
+        m = h2 * (h2 + 1) // 2
+        return {'kind': kind, 'h2': h2, 'c': [1.0] * m + [0.0] * (k - m)}
+    return {'kind': kind, 'c': [float(v) / 4.0 for v in rng.integers(0, 9, k)]}
 
 
 def run_perfect_case(case):
     """Real code + the oracle. Returns (obs, bad) with obs for the correspondence."""
     hp = _hp()
     nx, ny = case['dims']
-    grid = hp.CartesianGrid(hp.RegularCoords(case['delta'], [nx, ny], case['zero']))
+    grid = _make_grid(case)
+    weighted = case.get('grid') is not None
     apc = np.array(case['ap_re']) + 1j * np.array(case['ap_im'])
     is_complex = bool(np.any(apc.imag != 0))
     ap = hp.Field(apc if is_complex else apc.real.copy(), grid)
@@ -178,15 +242,50 @@ def run_perfect_case(case):
     small = 'npix<modes ' if grid.size < nmodes else ''
     bad = []
     obs = {'x': [float(v) for v in grid.x], 'y': [float(v) for v in grid.y], 'outs': [], 'status': 'ok'}
+    uc = case.get('user_coeffs')
+    cu = None if uc is None else np.array(uc['c'], dtype=float)
+    full = cu is None or bool(np.all(cu == 1))      # complete suppression: the four clauses of the property apply
     try:
-        c = hp.PerfectCoronagraph(ap, order)
+        c = hp.PerfectCoronagraph(ap, order) if uc is None else hp.PerfectCoronagraph(ap, coeffs=list(uc['c']))
     except Exception as e:  # noqa
         obs['status'] = _errkind(e)
         bad.append(('perfect %s%sraises' % (cls, small), 'PerfectCoronagraph(%dx%d %s aperture, order=%d) raised %s: %s' % (nx, ny, case['ap_kind'], order, type(e).__name__, str(e)[:80])))
         return obs, bad
+    # the matrices of the real object: the tied hypotheses of the `perfectMat_*` theorems are about them
+    obs['T'] = np.array(c.transformation)
+    obs['Tinv'] = np.array(c.transformation_inverse)
+    obs['coeffs'] = np.array(c.coeffs, dtype=float)
+    obs['weights'] = np.array(grid.weights, dtype=float) * np.ones(grid.size)
+    obs['tp'] = []
     poly = sum(case['poly'][i][j] * grid.x ** j * grid.y ** (i - j) for i in range(h) for j in range(i + 1))
     ins = [('flat', np.asarray(ap, dtype=complex)), ('poly', np.asarray(ap * poly, dtype=complex))]
     ins += [(f['name'], np.array(f['re']) + 1j * np.array(f['im'])) for f in case['fields']]
+    if uc is not None:
+        # partial suppression: the l-th orthogonalised mode must come out multiplied by 1 - coeffs[l]
+        ins += [('Tcol%d' % l, np.asarray(obs['T'][:, l], dtype=complex)) for l in range(min(obs['T'].shape[1], 4))]
+        if c.transformation.shape[1] != min(nmodes, grid.size) or len(c.coeffs) != c.transformation.shape[1]:
+            bad.append(('perfect user-coeffs mode-count', '%d coefficients gave %d modes and %d coefficients in use (expected %d)' % (len(uc['c']), c.transformation.shape[1], len(c.coeffs), min(nmodes, grid.size))))
+        ref_obj = None
+        if uc['kind'] == 'constant':
+            ref_obj, alpha = hp.PerfectCoronagraph(ap, order), cu[0]
+        elif uc['kind'] == 'prefix':
+            # ones on the modes of a lower order = the coronagraph of that order, provided QR's leading columns span
+            # the leading modes, i.e. the modes are independent on this sampled aperture
+            A = np.array([np.asarray(ap) * grid.x ** j * grid.y ** (i - j) for i in range(h) for j in range(i + 1)]).T
+            sv = np.linalg.svd(A, compute_uv=False) if A.size else np.zeros(1)
+            if grid.size >= nmodes and sv.min() > 1e-6 * max(sv.max(), 1e-300):
+                ref_obj, alpha = (hp.PerfectCoronagraph(ap, 2 * uc['h2']), 1.0) if uc['h2'] >= 1 else (None, 0.0)
+            else:
+                uc = dict(uc, kind='prefix-dependent')
+    # the matrix the object reports for itself
+    try:
+        obs['M'] = np.array(c.get_transformation_matrix_forward())
+        Mb = np.array(c.get_transformation_matrix_backward())
+        if obs['M'].shape != (grid.size, grid.size) or not np.array_equal(obs['M'], Mb):
+            bad.append(('perfect %stransformation-matrix' % cls, 'get_transformation_matrix_forward() has shape %s / differs from ..._backward()' % (obs['M'].shape,)))
+            del obs['M']
+    except Exception as e:  # noqa
+        bad.append(('perfect %s%stransformation-matrix raises' % (cls, small), 'PerfectCoronagraph(%dx%d %s aperture, order=%d).get_transformation_matrix_forward() raised %s: %s' % (nx, ny, case['ap_kind'], order, type(e).__name__, str(e)[:90])))
 
     def scalar(E):
         wf = hp.Wavefront(hp.Field(E.copy(), grid), 1)
@@ -219,23 +318,168 @@ def run_perfect_case(case):
             bad.append(('perfect %s%sraises' % (cls, small), 'PerfectCoronagraph(%dx%d %s aperture, order=%d).forward raised %s: %s' % (nx, ny, case['ap_kind'], order, type(e).__name__, str(e)[:80])))
             return obs, bad
         obs['outs'].append((name, E, o1))
+        if 'M' in obs and np.abs(obs['M'] @ E - o1).max() > TOL * scale:
+            bad.append(('perfect %stransformation-matrix' % cls, 'get_transformation_matrix_forward() @ E differs from forward(E) by %.3g (%dx%d %s aperture, order %d)' % (np.abs(obs['M'] @ E - o1).max(), nx, ny, case['ap_kind'], order)))
+        if name == 'flat':
+            ob = np.asarray(c.backward(hp.Wavefront(hp.Field(E.copy(), grid), 1)).electric_field)
+            if not np.array_equal(ob, o1):
+                bad.append(('perfect backward', 'backward differs from forward (documented to behave the same)'))
+        if name.startswith('Tcol'):
+            l = int(name[4:])
+            if np.abs(o1 - (1 - c.coeffs[l]) * E).max() > TOL * scale:
+                bad.append(('perfect %spartial-suppression' % cls, 'orthogonalised mode %d with coefficient %g came out with residual %.3g from (1-c)*mode' % (l, c.coeffs[l], np.abs(o1 - (1 - c.coeffs[l]) * E).max())))
+        if uc is not None and uc['kind'] in ('constant', 'prefix'):
+            # independent reference: a constant coefficient a gives (1-a) E + a P(E); ones on the modes of a lower
+            # order give the coronagraph of that order; all zero passes everything
+            want = E if ref_obj is None else (1 - alpha) * E + alpha * np.asarray(ref_obj.forward(hp.Wavefront(hp.Field(E.copy(), grid), 1)).electric_field)
+            if np.abs(o1 - want).max() > TOL * scale:
+                bad.append(('perfect %suser-coeffs %s' % (cls, uc['kind']), 'coeffs=%s on %dx%d %s aperture: differs from the reference built from coeffs=None objects by %.3g' % (uc['c'][:6], nx, ny, case['ap_kind'], np.abs(o1 - want).max())))
+        if not full:
+            pin, pout = float((np.abs(E) ** 2).sum()), float((np.abs(o1) ** 2).sum())
+            obs['tp'].append((float(hp.Wavefront(hp.Field(E.copy(), grid), 1).total_power), float(hp.Wavefront(hp.Field(o1.copy(), grid), 1).total_power)))
+            if not weighted and pout > pin * (1 + 1e-9) + 1e-30:
+                bad.append(('perfect %s%spower' % (cls, small), 'power grew from %.6g to %.6g with coefficients in [0, 2] (%dx%d %s aperture, order %d)' % (pin, pout, nx, ny, case['ap_kind'], order)))
+            continue
         if name in ('flat', 'poly') and np.abs(o1).max() > TOL * scale:
             bad.append(('perfect %s%s%s' % (cls, small, name), '%s wavefront over a %dx%d %s aperture, order %d: residual %.3g (relative to %.3g)' % (name, nx, ny, case['ap_kind'], order, np.abs(o1).max(), scale)))
         if np.abs(o2 - o1).max() > TOL * scale:
             bad.append(('perfect %s%sidempotent' % (cls, small), 'P(P(E)) differs from P(E) by %.3g (%dx%d %s aperture, order %d)' % (np.abs(o2 - o1).max(), nx, ny, case['ap_kind'], order)))
         pin, pout = float((np.abs(E) ** 2).sum()), float((np.abs(o1) ** 2).sum())
+        # `total_power` of the real wavefronts (the weighted sum): compared with the model's powerW
+        tin = float(hp.Wavefront(hp.Field(E.copy(), grid), 1).total_power)
+        tout = float(hp.Wavefront(hp.Field(o1.copy(), grid), 1).total_power)
+        obs['tp'].append((tin, tout))
+        if weighted:
+            # non-constant weights: the unweighted projector may increase total_power (documented
+            # restriction, `perfectMat_weighted_power_counterexample`); recorded, and reported through
+            # the known-findings mechanism by part_b once an open entry exists
+            if tout > tin * (1 + 1e-9) + 1e-30:
+                obs.setdefault('weighted_growth', []).append((name, tin, tout))
+            continue
         if pout > pin * (1 + 1e-9) + 1e-30:
             bad.append(('perfect %s%spower' % (cls, small), 'power grew from %.6g to %.6g (%dx%d %s aperture, order %d)' % (pin, pout, nx, ny, case['ap_kind'], order)))
     return obs, bad
 
 
+def _realify(M):
+    """A complex r x c matrix as the real 2r x 2c matrix acting on stacked (re; im) vectors."""
+    M = np.asarray(M)
+    return np.block([[M.real, -M.imag], [M.imag, M.real]])
+
+
+def pmat_lines(case, obs):
+    """Requests that run `perfectMat` on the real object's matrices (tie of the `perfectMat_*`
+    theorems): hypotheses' defects, the modes, and every field of the case."""
+    T, Ti, w, cf = obs['T'], obs['Tinv'], obs['weights'], obs['coeffs']
+    cplx = bool(np.iscomplexobj(T) and (np.any(T.imag != 0) or np.any(np.asarray(Ti).imag != 0)))
+    x, y = np.array(obs['x']), np.array(obs['y'])
+    are, aim = np.array(case['ap_re']), np.array(case['ap_im'])
+    if cplx:
+        Tr, Tir = _realify(T), _realify(Ti)
+        cf, w = np.concatenate([cf, cf]), np.concatenate([w, w])
+        x, y = np.concatenate([x, x]), np.concatenate([y, y])
+        aps = [np.concatenate([are, aim]), np.concatenate([-aim, are])]
+    else:
+        Tr, Tir = np.asarray(T).real, np.asarray(Ti).real
+        aps = [are] if not np.any(aim != 0) else [are, aim]
+    mu = 1.0 / float(w[0]) if float(w[0]) != 0 else 1.0
+    lines = ['C09 pmat %s %s %s %s %s' % (rat_lists(Tr), rat_lists(Tir), rat_list(cf), rat_list(w), rat(mu))]
+    for a in aps:
+        lines.append('C09 pmodes %d %s %s %s' % (case['order'], rat_list(a), rat_list(x), rat_list(y)))
+    want_matrix = 'M' in obs and Tr.shape[0] <= 40
+    if want_matrix:
+        lines.append('C09 pmatrix')
+    per = []
+    for name, E, o1 in obs['outs']:
+        if cplx:
+            lines.append('C09 papply %s' % rat_list(np.concatenate([E.real, E.imag])))
+            per.append(1)
+        else:
+            lines.append('C09 papply %s' % rat_list(E.real))
+            lines.append('C09 papply %s' % rat_list(E.imag))
+            per.append(2)
+    return lines, {'cplx': cplx, 'nap': len(aps), 'per': per, 'pmatrix': want_matrix, 'full': bool(np.all(cf == 1))}
+
+
+def check_pmat(ctx, case, obs, resp, meta):
+    short = {k2: case.get(k2) for k2 in ('dims', 'delta', 'zero', 'grid', 'order', 'ap_kind')}
+    weighted = case.get('grid') is not None
+    m = dict(t.split('=') for t in resp[0].split()[1:])
+    leftinv, adj = float(Fraction(m['leftinv'])), float(Fraction(m['adj']))
+    ctx.traces_validated += 1
+    hyp_ok = True
+    if not leftinv <= 1e-9:
+        hyp_ok = False
+        ctx.disagree('C09 pmat hypothesis', {'case': short, 'what': 'transformation_inverse is not a left inverse of transformation', 'defect': leftinv})
+    if not adj <= 1e-9:
+        if weighted:
+            ctx.count('B:weighted:adjoint-hypothesis-fails')
+        else:
+            ctx.disagree('C09 pmat hypothesis', {'case': short, 'what': 'transformation_inverse is not the (weighted) adjoint of transformation', 'defect': adj})
+        hyp_ok = False
+    for k in range(meta['nap']):
+        mm = dict(t.split('=') for t in resp[1 + k].split()[1:])
+        nulls, scale = float(Fraction(mm['nulls'])), float(Fraction(mm['scale']))
+        ctx.traces_validated += 1
+        if not meta['full']:
+            ctx.count('B:pmat:partial-coefficients')       # NullsModes is a hypothesis of the complete-suppression theorems only
+        elif not nulls <= TOL * max(1.0, scale):
+            ctx.disagree('C09 pmat hypothesis', {'case': short, 'what': 'a mode aperture*x^j*y^k is not mapped to zero (span of the modes not inside range T)', 'residual': nulls})
+    pos = 1 + meta['nap']
+    if meta['pmatrix']:
+        # `perfectMatrix` (theorem perfectMatrix_apply) against what get_transformation_matrix_forward() returned
+        Mm = np.array([[float(v) for v in parse_rat_list(r)] for r in resp[pos].split()[1].split(';')])
+        Mr = _realify(obs['M']) if meta['cplx'] else np.asarray(obs['M']).real
+        pos += 1
+        ctx.traces_validated += 1
+        ctx.count('B:pmatrix')
+        if Mm.shape != Mr.shape or np.abs(Mm - Mr).max() > TOL * max(1.0, float(np.abs(Mr).max())):
+            ctx.disagree('C09 perfectMatrix', {'case': short, 'what': 'get_transformation_matrix_forward() differs from the model matrix I - T diag(c) T+',
+                                               'max_abs_diff': float(np.abs(Mm - Mr).max()) if Mm.shape == Mr.shape else 'shape'})
+    cf = np.asarray(obs['coeffs'], dtype=float)
+    for (name, E, o1), cnt, (tin, tout) in zip(obs['outs'], meta['per'], obs['tp']):
+        rs = resp[pos:pos + cnt]
+        pos += cnt
+        outs, pin, pout = [], Fraction(0), Fraction(0)
+        for r in rs:
+            toks = r.split()
+            outs.append(np.array([float(v) for v in parse_rat_list(toks[1])]))
+            mm = dict(t.split('=') for t in toks[2:])
+            pin += Fraction(mm['pin'])
+            pout += Fraction(mm['pout'])
+        n = len(E)
+        ref = (outs[0][:n] + 1j * outs[0][n:]) if meta['cplx'] else (outs[0] + 1j * outs[1])
+        ctx.traces_validated += 1
+        scale = max(1.0, float(np.abs(E).max()))
+        if np.abs(ref - o1).max() > TOL * scale:
+            ctx.disagree('C09 perfectMat', {'case': short, 'field': name, 'max_abs_diff': float(np.abs(ref - o1).max())})
+            return
+        if name.startswith('Tcol') and leftinv <= 1e-9:
+            # conclusion of perfectMat_partial_suppression on the model's own output
+            l = int(name[4:])
+            ctx.traces_validated += 1
+            if np.abs(ref - (1 - cf[l]) * E).max() > TOL * scale:
+                ctx.disagree('C09 partial suppression', {'case': short, 'mode': l, 'coefficient': float(cf[l]), 'max_abs_diff': float(np.abs(ref - (1 - cf[l]) * E).max())})
+                return
+        # powerW of the model is total_power of the real wavefronts
+        if abs(float(pin) - tin) > TOL * max(1.0, tin) or abs(float(pout) - tout) > TOL * max(1.0, tin):
+            ctx.disagree('C09 powerW', {'case': short, 'field': name, 'model': [float(pin), float(pout)], 'impl': [tin, tout]})
+            return
+        if hyp_ok and meta['full'] and pout > pin * (1 + Fraction(1, 10 ** 9)):
+            ctx.disagree('C09 perfectMat', {'case': short, 'field': name, 'what': 'hypotheses hold but the model power grows', 'pin': float(pin), 'pout': float(pout)})
+            return
+
+
 def part_b(ctx):
     n = ctx.scale(140, 1500)
-    cases = []
-    forced = ['circular', 'obstructed', 'rectangular', 'grey', 'sparse', 'zero', 'full', 'complex']
+    cases = [gen_weighted_case(ctx.rng, directed=True)]
+    forced = ['circular', 'obstructed', 'rectangular', 'grey', 'sparse', 'zero', 'full', 'complex', 'weighted', 'weighted']
     for k in range(n):
-        cases.append(gen_perfect_case(ctx.rng, big=(ctx.tier == 'thorough' and k % 4 == 0), force=forced[k] if k < len(forced) else None))
+        cases.append(gen_perfect_case(ctx.rng, big=(ctx.tier == 'thorough' and k % 4 == 0), force=forced[k] if k < len(forced) else None,
+                                      user=(True if k in (0, 1, 7) else False if k < len(forced) else None)))
     lines, plan = [], []
+    plines, pplan = [], []
+    worst_weighted = 1.0
     for case in cases:
         obs, bad = run_perfect_case(case)
         for key, what in bad:
@@ -250,17 +494,41 @@ def part_b(ctx):
         ctx.count('B:parity:%s%s' % ('e' if nx % 2 == 0 else 'o', 'e' if ny % 2 == 0 else 'o'))
         if case.get('polarised'):
             ctx.count('B:polarised')
+        if case.get('user_coeffs'):
+            ctx.count('B:user-coeffs:' + case['user_coeffs']['kind'])
+        for name, tin, tout in obs.get('weighted_growth', []):
+            ctx.count('B:weighted:total_power-increased')
+            worst_weighted = max(worst_weighted, tout / tin)
+            if ctx._known('perfect weighted-grid power') is not None:
+                ctx.violation('perfect weighted-grid power', 'total_power grew from %.6g to %.6g on a grid with non-constant weights (%s, order %d)' % (tin, tout, case['ap_kind'], case['order']), case)
         sig = (case['shape_kind'], nx, ny, case['order'], case['ap_kind'])
         ctx.case({k: case[k] for k in ('shape_kind', 'dims', 'order', 'ap_kind')}, sig if nx * ny > 1 else None)
-        if is_complex:
-            continue        # complex modes are outside the (real) executable model: oracle only
+        if obs['status'] == 'ok' and 'T' in obs and len(obs['outs']) == len(obs['tp']):
+            if obs['T'].size * (4 if is_complex else 1) <= ctx.scale(1600, 2400):
+                pl, meta = pmat_lines(case, obs)
+                pplan.append((case, obs, len(plines), len(pl), meta))
+                plines += pl
+                ctx.count('B:pmat:' + ('complex' if meta['cplx'] else 'weighted' if case.get('grid') else 'real'))
+            else:
+                ctx.count('B:pmat:skipped-large')
+        if is_complex or case.get('user_coeffs'):
+            continue        # complex modes / user coefficients are outside the Gram-Schmidt model: oracle + perfectMat only
         base = len(lines)
         lines.append('C09 setup %d %s %s %s' % (case['order'], rat_list(case['ap_re']), rat_list(obs['x']), rat_list(obs['y'])))
         for name, E, o1 in obs['outs']:
             lines.append('C09 apply %s %s' % (rat_list(E.real), rat_list(E.imag)))
         plan.append((case, obs, base))
+    ctx.extra['weighted_grid_worst_total_power_ratio'] = worst_weighted
+    pout = ctx.model(plines)
+    for case, obs, base, cnt, meta in pplan:
+        resp = pout[base:base + cnt]
+        if any(not r.startswith('ok') for r in resp):
+            raise MachineryError('model refused a pmat request: %r' % [r for r in resp if not r.startswith('ok')][:1])
+        check_pmat(ctx, case, obs, resp, meta)
     out = ctx.model(lines)
     for case, obs, base in plan:
+        if obs['status'] != 'ok':
+            continue
         m = dict(t.split('=') for t in out[base].split()[1:])
         nmodes, rank, slack = int(m['modes']), int(m['rank']), float(Fraction(m['slack']))
         h = case['order'] // 2
@@ -268,7 +536,7 @@ def part_b(ctx):
             raise MachineryError('model mode count')
         if rank < nmodes:
             # modes linearly dependent on this sampled aperture (decided exactly): QR completes the
-            # basis with arbitrary directions, so only the property clauses are compared
+            # basis with arbitrary directions, so the Gram-Schmidt model is not compared (perfectMat is)
             ctx.count('B:dependent-modes')
             continue
         if slack < 1e-10:
@@ -280,7 +548,7 @@ def part_b(ctx):
             ctx.traces_validated += 1
             scale = max(1.0, float(np.abs(E).max()))
             if np.abs(ref - o1).max() > TOL * scale:
-                ctx.disagree('C09 perfect', {'case': {k2: case[k2] for k2 in ('dims', 'delta', 'zero', 'order', 'ap_kind')}, 'field': name,
+                ctx.disagree('C09 perfect', {'case': {k2: case.get(k2) for k2 in ('dims', 'delta', 'zero', 'grid', 'order', 'ap_kind')}, 'field': name,
                                              'max_abs_diff': float(np.abs(ref - o1).max())})
                 break
 
@@ -360,6 +628,17 @@ def run_lyot_case(case):
         out0 = np.asarray(occ.forward(hp.Wavefront(hp.Field(E.copy(), pg), wl)).electric_field)
         if np.abs(out0).max() > TOL * scale:
             bad.append(('occulted opaque', 'OccultedLyotCoronagraph with a fully opaque mask returns %.3g' % np.abs(out0).max()))
+        # the same two identities for backward (the stop is an Apodizer: backward multiplies by its conjugate)
+        wfb = hp.Wavefront(hp.Field(E.copy(), pg), wl)
+        outb = np.asarray(lyot.backward(wfb).electric_field)
+        wantb = E if stop is None else E * stop.conj()
+        if np.abs(outb - wantb).max() > TOL * scale:
+            bad.append(('lyot backward-transparent', 'LyotCoronagraph.backward with a fully transmissive mask differs from conj(stop)*E by %.3g (%dx%d pupil, %s stop)' % (np.abs(outb - wantb).max(), nx, ny, case['stop_kind'])))
+        if not np.array_equal(np.asarray(wfb.electric_field), E):
+            bad.append(('lyot input-modified', 'LyotCoronagraph.backward changed its input'))
+        outb0 = np.asarray(occ.backward(hp.Wavefront(hp.Field(E.copy(), pg), wl)).electric_field)
+        if np.abs(outb0).max() > TOL * scale:
+            bad.append(('occulted backward-opaque', 'OccultedLyotCoronagraph.backward with a fully opaque mask returns %.3g' % np.abs(outb0).max()))
     except Exception as e:  # noqa
         bad.append(('lyot raises', 'Lyot coronagraph raised %s: %s' % (type(e).__name__, str(e)[:80])))
         return None, bad
@@ -398,7 +677,37 @@ def run_lyot_case(case):
         return rat_lists(M.real) + ' ' + rat_lists(M.imag)
     lines = ['C09 lyot %s %s %s %s %s' % (cmx(F), cmx(B), cl(mask), '- -' if stop is None else cl(stop), cl(E)),
              'C09 occulted %s %s %s %s' % (cmx(F), cmx(B), cl(mask), cl(E))]
-    return {'lines': lines, 'outs': [o_l, o_o], 'scale': s2}, bad
+    # --- backward on the same stand-ins
+    Y = rng.integers(-16, 17, n) / 8.0 + 1j * rng.integers(-16, 17, n) / 8.0
+    wfy = hp.Wavefront(hp.Field(Y.copy(), pg), wl)
+    b_l = np.asarray(lyot.backward(wfy).electric_field)
+    b_o = np.asarray(occ.backward(hp.Wavefront(hp.Field(Y.copy(), pg), wl)).electric_field)
+    if not np.array_equal(np.asarray(wfy.electric_field), Y):
+        bad.append(('lyot input-modified', 'LyotCoronagraph.backward changed its input'))
+    ys = Y if stop is None else Y * stop.conj()
+    wantb_l = ys - B @ ((F @ ys) * (1 - mask.conj()))
+    wantb_o = B @ (mask.conj() * (F @ Y))
+    s3 = max(1.0, float(np.abs(wantb_l).max()), float(np.abs(wantb_o).max()))
+    if np.abs(b_l - wantb_l).max() > TOL * s3:
+        bad.append(('lyot backward-formula', 'LyotCoronagraph.backward differs from y\' - B((1-conj m) F y\'), y\' = conj(stop)*y, by %.3g' % np.abs(b_l - wantb_l).max()))
+    if np.abs(b_o - wantb_o).max() > TOL * s3:
+        bad.append(('occulted backward-formula', 'OccultedLyotCoronagraph.backward differs from B(conj(m) F y) by %.3g' % np.abs(b_o - wantb_o).max()))
+    lines += ['C09 lyotb %s %s %s %s %s' % (cmx(F), cmx(B), cl(mask), '- -' if stop is None else cl(stop), cl(Y)),
+              'C09 occultedb %s %s %s %s' % (cmx(F), cmx(B), cl(mask), cl(Y))]
+    # --- backward is the adjoint of forward when the propagator's backward is the adjoint of its forward
+    adjoint_pair = bool(rng.random() < 0.75)
+    F2 = cm(mdim, n)
+    B2 = F2.conj().T.copy() if adjoint_pair else cm(n, mdim)
+    lyot.prop = _LinearProp(F2, B2, pg, fg)
+    fx = np.asarray(lyot.forward(hp.Wavefront(hp.Field(E.copy(), pg), wl)).electric_field)
+    by = np.asarray(lyot.backward(hp.Wavefront(hp.Field(Y.copy(), pg), wl)).electric_field)
+    lhs, rhs = complex(np.vdot(Y, fx)), complex(np.vdot(by, E))
+    s4 = max(1.0, abs(lhs), abs(rhs))
+    if adjoint_pair and abs(lhs - rhs) > TOL * s4:
+        bad.append(('lyot backward-adjoint', '<y, forward x> = %r but <backward y, x> = %r with a propagator pair B = F^H' % (lhs, rhs)))
+    adj = {'line': 'C09 lyotadj %s %s %s %s %s %s' % (cmx(F2), cmx(B2), cl(mask), '- -' if stop is None else cl(stop), cl(E), cl(Y)),
+           'lhs': lhs, 'rhs': rhs, 'pair': adjoint_pair, 'scale': s4}
+    return {'lines': lines, 'outs': [o_l, o_o, b_l, b_o], 'scale': max(s2, s3), 'adj': adj}, bad
 
 
 def part_c(ctx):
@@ -417,16 +726,37 @@ def part_c(ctx):
                  ('C', nx, ny, case['q'], case['num_airy'], case['stop_kind'], case['mask_elem']))
         if obs is not None:
             plan.append((case, obs, len(lines)))
-            lines += obs['lines']
+            lines += obs['lines'] + [obs['adj']['line']]
     out = ctx.model(lines)
     for case, obs, base in plan:
-        for k in range(2):
+        short = {k2: case[k2] for k2 in ('dims', 'q', 'num_airy', 'stop_kind', 'seed')}
+        for k in range(4):
             toks = out[base + k].split()
+            if toks[0] != 'ok':
+                raise MachineryError('model refused a Lyot request: %s' % out[base + k][:80])
             ref = np.array([float(v) for v in parse_rat_list(toks[1])]) + 1j * np.array([float(v) for v in parse_rat_list(toks[2])])
             ctx.traces_validated += 1
             if np.abs(ref - obs['outs'][k]).max() > TOL * obs['scale']:
-                ctx.disagree('C09 ' + ('lyot', 'occulted')[k], {'case': {k2: case[k2] for k2 in ('dims', 'q', 'num_airy', 'stop_kind', 'seed')},
-                                                                 'max_abs_diff': float(np.abs(ref - obs['outs'][k]).max())})
+                ctx.disagree('C09 ' + ('lyot', 'occulted', 'lyot backward', 'occulted backward')[k], {'case': short, 'max_abs_diff': float(np.abs(ref - obs['outs'][k]).max())})
+        # lyot_backward_adjoint: hypothesis and conclusion evaluated by the model, conclusion compared with the real methods
+        a = obs['adj']
+        toks = out[base + 4].split()
+        if toks[0] != 'ok':
+            raise MachineryError('model refused lyotadj: %s' % out[base + 4][:80])
+        m = dict(t.split('=') for t in toks[1:])
+
+        def c1(t):
+            re_, im_ = t.split(',')
+            return complex(float(Fraction(re_)), float(Fraction(im_)))
+        ctx.traces_validated += 1
+        hyp = Fraction(m['adj']) == 0
+        ctx.count('C:adjoint-pair' if hyp else 'C:non-adjoint-pair:' + ('unequal' if m['lhs'] != m['rhs'] else 'equal'))
+        if hyp != a['pair']:
+            ctx.disagree('C09 lyot adjoint', {'case': short, 'what': 'hypothesis B = F^H: model %s, generator %s' % (hyp, a['pair'])})
+        elif hyp and m['lhs'] != m['rhs']:
+            ctx.disagree('C09 lyot adjoint', {'case': short, 'what': 'hypothesis holds but the model sides differ', 'model': [m['lhs'], m['rhs']]})
+        elif abs(c1(m['lhs']) - a['lhs']) > TOL * a['scale'] or abs(c1(m['rhs']) - a['rhs']) > TOL * a['scale']:
+            ctx.disagree('C09 lyot adjoint', {'case': short, 'model': [m['lhs'], m['rhs']], 'impl': [repr(a['lhs']), repr(a['rhs'])]})
 
 
 # =============================================================================================
@@ -462,6 +792,12 @@ def observe_levels(case):
     for mk, pr in zip(masks, props):
         g = mk.grid
         obs['grids'].append(([int(v) for v in g.dims], [float(v) for v in g.delta], [float(v) for v in g.zero]))
+        # index, on each axis, of the sample at the origin (the mask singularity / window peak must sit there)
+        org = []
+        for k in range(2):
+            hit = np.flatnonzero(np.abs(np.asarray(g.separated_coords[k])) <= 1e-9 * float(g.delta[k]))
+            org.append(int(hit[0]) if len(hit) == 1 else -1)
+        obs.setdefault('origins', []).append(org)
         obs['props'].append({'FourierFilter': 0, 'FraunhoferPropagator': 1}.get(type(pr).__name__, -1))
     if kind == 'unit':
         # recover every window: M_i = (1 - w_i) - sum_j resample(M_j)
@@ -508,7 +844,7 @@ def check_levels_case(ctx, case, resp, obs):
     rows = m['lv'].split(';')
     pads = [] if m['pad'] == '-' else m['pad'].split(';')
     for i, row in enumerate(rows):
-        qi, na, dims, delta, zero, kind = row.split('|')
+        qi, na, dims, delta, zero, kind, origin = row.split('|')
         d = [int(v) for v in dims.split(',')]
         de = [float(Fraction(v)) for v in delta.split(',')]
         ze = [float(Fraction(v)) for v in zero.split(',')]
@@ -517,6 +853,10 @@ def check_levels_case(ctx, case, resp, obs):
             all(abs(a - b) <= 1e-12 * max(abs(b), de[k]) for k, (a, b) in enumerate(zip(gze, ze))) and obs['props'][i] == int(kind)
         if not ok:
             ctx.disagree('C09 levels', {'case': short, 'level': i, 'impl': [gd, gde, gze, obs['props'][i]], 'model': row})
+            return
+        ctx.traces_validated += 1
+        if obs['origins'][i] != [int(v) for v in origin.split(',')]:
+            ctx.disagree('C09 origin index', {'case': short, 'level': i, 'impl_origin_sample': obs['origins'][i], 'model': origin})
             return
         if i < len(pads) and obs['windows']:
             _, b, a = pads[i].split(':')
@@ -733,6 +1073,451 @@ def part_e(ctx):
 
 
 # =============================================================================================
+# F. the algebra of the multi-scale construction on exact linear stand-ins (round 4)
+
+class _MSWorld:
+    """Replaces, inside hcipy.coronagraphy.multi_scale, every Fourier object by an exact linear
+    stand-in with Gaussian-dyadic matrices, so that the real constructor and the real forward run
+    their own algebra (mask recursion, window complement, sum over levels, wavelength handling,
+    Lyot stop) on operators the model can be given exactly."""
+
+    def __init__(self, seed, n):
+        self.rng = np.random.default_rng(seed)
+        self.n = n
+        self.grids = []         # focal grid of level i (by identity)
+        self.F, self.B, self.R = {}, {}, {}
+        self.wavelengths = []   # wavelengths the propagators were called with
+
+    def cm(self, r, c):
+        return self.rng.integers(-2, 3, (r, c)) / 2.0 + 1j * self.rng.integers(-2, 3, (r, c)) / 2.0
+
+    def level_of(self, grid):
+        # by geometry, not identity: an agnostic element (vector vortex) builds one instance per wavelength
+        for i, g in enumerate(self.grids):
+            if g is grid or (np.array_equal(g.dims, grid.dims) and np.array_equal(g.delta, grid.delta) and np.array_equal(g.zero, grid.zero)):
+                return i
+        raise MachineryError('stand-in: unknown focal grid')
+
+    def ops(self, i):
+        if i not in self.F:
+            d = self.grids[i].size
+            self.F[i], self.B[i] = self.cm(d, self.n), self.cm(self.n, d)
+        return self.F[i], self.B[i]
+
+    def patch(self):
+        import hcipy.coronagraphy.multi_scale as ms
+        import hcipy.coronagraphy.vortex as vx
+        hp = _hp()
+        world = self
+        real_mfg = ms.make_focal_grid
+
+        def make_focal_grid(*a, **k):
+            with warnings.catch_warnings():
+                warnings.simplefilter('ignore')
+                g = real_mfg(*a, **k)
+            for g0 in world.grids:
+                if np.array_equal(g0.dims, g.dims) and np.array_equal(g0.delta, g.delta) and np.array_equal(g0.zero, g.zero):
+                    return g0
+            world.grids.append(g)
+            return g
+
+        # every stand-in acts on the last axis, so scalar, vector and tensor fields go through alike
+        class FFT:
+            def __init__(self, grid):
+                self.src = world.level_of(grid)
+                self.output_grid = grid
+
+            def forward(self, field):
+                return field
+
+        class MFT:
+            def __init__(self, focal_grid, out_grid):
+                self.i, self.j, self.grid = world.level_of(focal_grid), world.level_of(out_grid), focal_grid
+
+            def backward(self, field):
+                key = (self.j, self.i)
+                if key not in world.R:
+                    world.R[key] = world.cm(world.grids[self.i].size, world.grids[self.j].size)
+                return hp.Field(np.asarray(field) @ world.R[key].T, self.grid)
+
+        class Filter:
+            def __init__(self, input_grid, mask, q=1):
+                self.grid, self.mask = input_grid, mask
+                self.level = world.level_of(mask.grid)
+
+            def _apply(self, field, adjoint):
+                F, B = world.ops(self.level)
+                foc = np.asarray(field) @ F.T
+                m = np.asarray(self.mask)
+                if m.ndim == 3:
+                    # a matrix transfer function: the real FourierFilter uses the conjugate transpose for the adjoint
+                    tf = m.conj().transpose(1, 0, 2) if adjoint else m
+                    g = self.mask.grid
+                    prod = np.asarray(hp.field_dot(hp.Field(tf, g), hp.Field(foc, g)))
+                else:
+                    prod = (m.conj() if adjoint else m) * foc
+                return hp.Field(prod @ B.T, self.grid)
+
+            def forward(self, field):
+                return self._apply(field, False)
+
+            def backward(self, field):      # the adjoint filter: same transforms, conjugated transfer function
+                return self._apply(field, True)
+
+        class Prop:
+            def __init__(self, input_grid, focal_grid):
+                self.pg, self.fg, self.level = input_grid, focal_grid, world.level_of(focal_grid)
+
+            def forward(self, wf):
+                world.wavelengths.append(float(wf.wavelength))
+                F, _ = world.ops(self.level)
+                return hp.Wavefront(hp.Field(np.asarray(wf.electric_field) @ F.T, self.fg), wf.wavelength, wf.input_stokes_vector)
+
+            def backward(self, wf):
+                world.wavelengths.append(float(wf.wavelength))
+                _, B = world.ops(self.level)
+                return hp.Wavefront(hp.Field(np.asarray(wf.electric_field) @ B.T, self.pg), wf.wavelength, wf.input_stokes_vector)
+
+            __call__ = forward
+
+        repl = {'make_focal_grid': make_focal_grid, 'FastFourierTransform': FFT, 'MatrixFourierTransform': MFT,
+                'FourierFilter': Filter, 'FraunhoferPropagator': Prop}
+        saved = [(mod, k, getattr(mod, k)) for mod in (ms, vx) for k in repl]
+        for mod in (ms, vx):
+            for k, v in repl.items():
+                setattr(mod, k, v)
+        return saved
+
+    @staticmethod
+    def unpatch(saved):
+        for mod, k, v in saved:
+            setattr(mod, k, v)
+
+
+MSALG_CONFIGS = [(2, 2, 2, 4), (2, 2, 2, 8), (2, 2, 3, 6), (2, 2, 3, 18), (3, 2, 2, 8), (3, 2, 2, 16), (3, 2, 3, 6), (2, 4, 2, 4),
+                 (2, 4, 2, 8), (4, 2, 2, 4), (4, 2, 2, 8), (2, 2, 2, 2), (3, 2, 2, 4)]
+
+
+def gen_msalg_case(rng, k):
+    N, W, s, q = MSALG_CONFIGS[k % len(MSALG_CONFIGS)] if k < len(MSALG_CONFIGS) else MSALG_CONFIGS[int(rng.integers(0, len(MSALG_CONFIGS)))]
+    return {'part': 'F', 'N': N, 'w': W, 's': float(s), 'q': float(q), 'kind': ('vvc' if k in (2, 9) else str(rng.choice(['random', 'random', 'vortex', 'fqpm', 'vvc']))),
+            'charge': int(rng.choice([2, 4, 6])), 'stop': bool(rng.random() < 0.5), 'seed': int(rng.integers(0, 2 ** 31)),
+            'wavelengths': [1.0, float(rng.choice([0.5, 2.0, 1.6e-6]))]}
+
+
+def run_msalg_case(case):
+    """The real constructor + forward/backward on stand-ins; brute-force statement of the design; the model requests
+    (one per Jones component for the vector vortex, whose make_instance/forward/backward are a second copy of the code)."""
+    hp = _hp()
+    N, W, s, q = case['N'], case['w'], case['s'], case['q']
+    pg = hp.make_pupil_grid(N)
+    n = pg.size
+    world = _MSWorld(case['seed'], n)
+    rng = np.random.default_rng(case['seed'] + 1)
+    vvc = case['kind'] == 'vvc'
+    comps = [(a, c) for a in range(2) for c in range(2)] if vvc else [None]
+
+    def raw_mask(grid, comp=None):
+        if case['kind'] == 'vortex':
+            v = np.exp(1j * case['charge'] * grid.as_('polar').theta) * (1 - (grid.as_('polar').r < 0.5e-9))
+        elif case['kind'] == 'fqpm':
+            v = (np.sign(grid.x) * np.sign(grid.y)).astype(complex)
+        elif vvc:
+            J = hp.LinearRetarder(np.pi, hp.Field(case['charge'] / 2 * grid.as_('polar').theta, grid)).jones_matrix
+            v = np.asarray(J)[comp[0], comp[1]] * (1 - (grid.as_('polar').r < 0.5e-9))
+        else:
+            v = rng.integers(-4, 5, grid.size) / 4.0 + 1j * rng.integers(-4, 5, grid.size) / 4.0
+        return np.asarray(v, dtype=complex)
+
+    made = []
+
+    def complex_mask(grid):
+        v = raw_mask(grid)
+        made.append(v.copy())
+        return hp.Field(v.copy(), grid)
+    stop = (rng.integers(-4, 5, n) / 4.0 + 1j * rng.integers(-4, 5, n) / 4.0) if case['stop'] else None
+    E = rng.integers(-8, 9, n) / 4.0 + 1j * rng.integers(-8, 9, n) / 4.0
+    bad = []
+    saved = world.patch()
+    try:
+        stop_f = None if stop is None else hp.Field(stop.copy(), pg)
+        if case['kind'] == 'vortex':
+            c = hp.VortexCoronagraph(pg, case['charge'], stop_f, q, s, W)
+        elif case['kind'] == 'fqpm':
+            c = hp.FQPMCoronagraph(pg, stop_f, q, s, W)
+        elif vvc:
+            c = hp.VectorVortexCoronagraph(case['charge'], stop_f, q=q, scaling_factor=s, window_size=W)
+        else:
+            c = hp.MultiScaleCoronagraph(pg, complex_mask, stop_f, q, s, W)
+        outs = []
+        for wl in case['wavelengths']:
+            wf = hp.Wavefront(hp.Field(E.copy(), pg), wl)
+            o = c.forward(wf)
+            outs.append(np.asarray(o.electric_field).copy())
+            if o.wavelength != wl or wf.wavelength != wl:
+                bad.append(('multiscale wavelength-bookkeeping', 'forward at wavelength %g returned wavelength %r and left the input at %r' % (wl, o.wavelength, wf.wavelength)))
+            if not np.array_equal(np.asarray(wf.electric_field), E):
+                bad.append(('multiscale input-modified', 'forward changed its input'))
+        if vvc:
+            masks_all = [np.asarray(m).copy() for m in c.get_instance_data(pg, None, case['wavelengths'][0]).jones_matrices]
+        else:
+            masks_all = [np.asarray(m).copy() for m in c.focal_masks]
+        # backward through the same object
+        Y = rng.integers(-8, 9, n) / 4.0 + 1j * rng.integers(-8, 9, n) / 4.0
+        outsb = []
+        for wl in case['wavelengths']:
+            wf = hp.Wavefront(hp.Field(Y.copy(), pg), wl)
+            o = c.backward(wf)
+            outsb.append(np.asarray(o.electric_field).copy())
+            if o.wavelength != wl or wf.wavelength != wl:
+                bad.append(('multiscale wavelength-bookkeeping', 'backward at wavelength %g returned wavelength %r and left the input at %r' % (wl, o.wavelength, wf.wavelength)))
+            if not np.array_equal(np.asarray(wf.electric_field), Y):
+                bad.append(('multiscale input-modified', 'backward changed its input'))
+    except Exception as e:  # noqa
+        return None, [('multiscale stand-in raises', '%s on stand-ins raised %s: %s' % (case['kind'], type(e).__name__, str(e)[:100]))]
+    finally:
+        world.unpatch(saved)
+    L = len(masks_all)
+    grids = world.grids[:L]
+    if any(w != 1.0 for w in world.wavelengths):
+        bad.append(('multiscale chromatic-propagator-call', 'a propagator was called at wavelength %r (must be 1 after rescaling)' % sorted(set(world.wavelengths))[:3]))
+    if outs[0].shape != outs[1].shape or np.abs(outs[0] - outs[1]).max() > 0:
+        bad.append(('multiscale chromatic', 'the output field depends on the wavelength'))
+    if outsb[0].shape != outsb[1].shape or np.abs(outsb[0] - outsb[1]).max() > 0:
+        bad.append(('multiscale chromatic', 'the output field of backward depends on the wavelength'))
+    want_shape = (2, 2, n) if vvc else (n,)
+    if outs[0].shape != want_shape or outsb[0].shape != want_shape:
+        return None, bad + [('multiscale stand-in raises', 'output of shape %s / %s' % (outs[0].shape, outsb[0].shape))]
+    ds = [g.size for g in grids]
+    D = sum(ds)
+    off = np.concatenate([[0], np.cumsum(ds)])
+    wins = []
+    for i, g in enumerate(grids):
+        dd = int(g.dims[0])
+        if i != L - 1:
+            b = (dd - W) // 2
+            wins.append(expected_window(dd, dd, W, b, dd - W - b).ravel())
+        else:
+            wins.append(np.zeros(g.size))
+    for i in range(L):
+        for j in range(i):
+            if (j, i) not in world.R:
+                bad.append(('multiscale mask-recursion', 'level %d never resamples the mask of level %d (nothing subtracted for it)' % (i, j)))
+                world.R[(j, i)] = np.zeros((ds[i], ds[j]), dtype=complex)
+
+    def emb_vec(v, i):
+        o = np.zeros(D, dtype=complex)
+        o[off[i]:off[i + 1]] = v
+        return o
+
+    def cl(a):
+        a = np.asarray(a, dtype=complex)
+        return rat_list(a.real) + ' ' + rat_list(a.imag)
+
+    def cmx(M):
+        return rat_lists(M.real) + ' ' + rat_lists(M.imag)
+    ys = Y if stop is None else Y * stop.conj()
+    parts = []
+    for comp in comps:
+        tag = '' if comp is None else ' (Jones component %d,%d)' % comp
+        pick = (lambda arr: arr) if comp is None else (lambda arr: arr[comp[0], comp[1]])
+        masks = [pick(m) for m in masks_all]
+        # brute-force statement of the design on the same operators
+        raws = made[:L] if case['kind'] == 'random' else [raw_mask(g, comp) for g in grids]
+        Ms = []
+        for i in range(L):
+            M = raws[i] * (1 - wins[i]) if i != L - 1 else raws[i].copy()
+            for j in range(i):
+                M = M - world.R[(j, i)] @ Ms[j]
+            Ms.append(M)
+        want = sum(world.ops(i)[1] @ (Ms[i] * (world.ops(i)[0] @ E)) for i in range(L))
+        if stop is not None:
+            want = want * stop
+        scale = max(1.0, float(np.abs(want).max()))
+        for i in range(L):
+            if masks[i].shape != Ms[i].shape or np.abs(masks[i] - Ms[i]).max() > TOL * max(1.0, np.abs(Ms[i]).max()):
+                bad.append(('multiscale mask-recursion', 'level %d: stored mask differs from raw*(1-window) - sum of resampled earlier masks%s' % (i, tag)))
+                break
+        if np.abs(pick(outs[0]) - want).max() > TOL * scale:
+            bad.append(('multiscale forward-sum', 'forward differs from stop * sum_i B_i(M_i * F_i E) by %.3g%s' % (np.abs(pick(outs[0]) - want).max(), tag)))
+        wantb = sum(world.ops(i)[1] @ (Ms[i].conj() * (world.ops(i)[0] @ ys)) for i in range(L))
+        scale = max(scale, float(np.abs(wantb).max()))
+        if np.abs(pick(outsb[0]) - wantb).max() > TOL * scale:
+            bad.append(('multiscale backward-sum', 'backward differs from sum_i B_i(conj(M_i) * F_i (conj(stop) y)) by %.3g%s' % (np.abs(pick(outsb[0]) - wantb).max(), tag)))
+        # the model request: all levels embedded as blocks of one index set
+        toks = ['%d %d' % (n, D), '- -' if stop is None else cl(stop), '@FIELD@', str(L)]
+        for i in range(L):
+            Fi, Bi = world.ops(i)
+            Fe = np.zeros((D, n), dtype=complex)
+            Fe[off[i]:off[i + 1]] = Fi
+            Be = np.zeros((n, D), dtype=complex)
+            Be[:, off[i]:off[i + 1]] = Bi
+            toks += [cl(emb_vec(raws[i], i)), cl(emb_vec(wins[i], i)), cmx(Fe), cmx(Be), str(i)]
+            for j in range(i):
+                Re = np.zeros((D, D), dtype=complex)
+                Re[off[i]:off[i + 1], off[j]:off[j + 1]] = world.R[(j, i)]
+                toks.append(cmx(Re))
+        body = ' '.join(toks)
+        parts.append({'line': 'C09 msalg ' + body.replace('@FIELD@', cl(E)), 'line_b': 'C09 msalgb ' + body.replace('@FIELD@', cl(Y)),
+                      'out': pick(outs[0]), 'out_b': pick(outsb[0]), 'masks': masks, 'off': off, 'scale': scale, 'L': L, 'D': D, 'comp': comp})
+    return {'parts': parts, 'L': L}, bad
+
+
+def gen_mstele(rng):
+    """Nested supports with windows inside the next support (sometimes deliberately violated)."""
+    d, n, L = int(rng.integers(3, 11)), int(rng.integers(1, 4)), int(rng.integers(1, 5))
+    lo, hi = 0, d
+    sps = []
+    supports = []
+    for i in range(L):
+        supports.append((lo, hi))
+        if hi - lo > 1:
+            lo2 = lo + int(rng.integers(0, 2))
+            hi2 = hi - int(rng.integers(0, 2))
+            if hi2 <= lo2:
+                lo2, hi2 = lo, hi
+            lo, hi = lo2, hi2
+    broken = bool(rng.random() < 0.2 and L > 1)
+    for i in range(L):
+        S = np.zeros(d)
+        S[supports[i][0]:supports[i][1]] = 1
+        w = np.zeros(d)
+        if i + 1 < L:
+            a, b = supports[i + 1]
+            w[a:b] = rng.integers(0, 9, b - a) / 8.0
+            if broken and i == 0:
+                outside = [p for p in range(d) if not (a <= p < b)]
+                if outside:
+                    w[outside[0]] = 0.5
+                else:
+                    broken = False
+        sps.append((S, w))
+    m = rng.integers(-8, 9, d) / 4.0
+    F = rng.integers(-4, 5, (d, n)) / 2.0
+    B = rng.integers(-4, 5, (n, d)) / 2.0
+    E = rng.integers(-8, 9, n) / 4.0
+    line = 'C09 mstele %d %d %s %s %s %d %s %s' % (n, d, rat_list(m), rat_lists(F), rat_lists(B), L,
+                                                    ' '.join('%s %s' % (rat_list(S), rat_list(w)) for S, w in sps), rat_list(E))
+    return line, B @ (m * (F @ E)), broken
+
+
+def gen_msteleb(rng):
+    """`multiscale_backward_telescopes` at the Gaussian rationals: complex mask and operators, real windows
+    (sometimes one complex window sample: the identity needs no reality of the windows)."""
+    d, n, L = int(rng.integers(3, 9)), int(rng.integers(1, 4)), int(rng.integers(1, 4))
+    lo, hi = 0, d
+    supports = []
+    for i in range(L):
+        supports.append((lo, hi))
+        if hi - lo > 2:
+            lo, hi = lo + int(rng.integers(0, 2)), hi - int(rng.integers(0, 2))
+    cplx_window = bool(rng.random() < 0.2 and L > 1)
+    sps = []
+    for i in range(L):
+        S = np.zeros(d)
+        S[supports[i][0]:supports[i][1]] = 1
+        w = np.zeros(d, dtype=complex)
+        if i + 1 < L:
+            a, b = supports[i + 1]
+            w[a:b] = rng.integers(0, 9, b - a) / 8.0
+            if cplx_window and i == 0:
+                w[a] = w[a] + 0.5j
+        sps.append((S, w))
+
+    def cv(k):
+        return rng.integers(-4, 5, k) / 2.0 + 1j * rng.integers(-4, 5, k) / 2.0
+    m, y = cv(d), cv(n)
+    F = cv(d * n).reshape(d, n)
+    B = cv(n * d).reshape(n, d)
+
+    def cl(a):
+        return rat_list(np.asarray(a).real) + ' ' + rat_list(np.asarray(a).imag)
+    line = 'C09 msteleb %d %d %s %s %s %s %s %d %s %s' % (n, d, cl(m), rat_lists(F.real), rat_lists(F.imag), rat_lists(B.real), rat_lists(B.imag), L,
+                                                       ' '.join('%s %s' % (rat_list(S), cl(w)) for S, w in sps), cl(y))
+    return line, B @ (m.conj() * (F @ y)), cplx_window
+
+
+def part_f(ctx):
+    cases = [gen_msalg_case(ctx.rng, k) for k in range(ctx.scale(16, 60))]
+    lines, plan = [], []
+    for case in cases:
+        obs, bad = run_msalg_case(case)
+        for key, what in bad:
+            ctx.violation(key, what, case)
+        ctx.count('F:kind:' + case['kind'])
+        ctx.count('F:stop' if case['stop'] else 'F:no-stop')
+        if obs is not None:
+            ctx.count('F:levels:%d' % obs['L'])
+            ctx.case({k: case[k] for k in ('N', 'w', 's', 'q', 'kind', 'stop')}, ('F', case['N'], case['w'], case['s'], case['q'], case['kind'], case['stop']) if obs['L'] > 1 else None)
+            for part in obs['parts']:
+                plan.append((case, part, len(lines)))
+                lines.append(part['line'])
+    tele = [gen_mstele(ctx.rng) for _ in range(ctx.scale(60, 400))]
+    teleb = [gen_msteleb(ctx.rng) for _ in range(ctx.scale(40, 300))]
+    out = ctx.model(lines + [t[0] for t in tele] + [t[0] for t in teleb] + [obs['line_b'] for _, obs, _ in plan])
+    out_b = out[len(lines) + len(tele) + len(teleb):]
+    out_tb = out[len(lines) + len(tele):len(lines) + len(tele) + len(teleb)]
+    out = out[:len(lines) + len(tele)]
+    for case, obs, k in plan:
+        toks = out[k].split()
+        short = {k2: case[k2] for k2 in ('N', 'w', 's', 'q', 'kind', 'stop', 'seed')}
+        short['jones_component'] = obs['comp']
+        if toks[0] != 'ok' or len(toks) != 3 + 2 * obs['L']:
+            raise MachineryError('model refused msalg: %s' % out[k][:80])
+
+        def cv(a, b):
+            return np.array([float(v) for v in parse_rat_list(a)]) + 1j * np.array([float(v) for v in parse_rat_list(b)])
+        ctx.traces_validated += 1
+        ref = cv(toks[1], toks[2])
+        if np.abs(ref - obs['out']).max() > TOL * obs['scale']:
+            ctx.disagree('C09 msForward', {'case': short, 'max_abs_diff': float(np.abs(ref - obs['out']).max())})
+            continue
+        for i in range(obs['L']):
+            Mi = cv(toks[3 + 2 * i], toks[4 + 2 * i])[obs['off'][i]:obs['off'][i + 1]]
+            ctx.traces_validated += 1
+            if np.abs(Mi - obs['masks'][i]).max() > TOL * max(1.0, float(np.abs(Mi).max())):
+                ctx.disagree('C09 msMasks', {'case': short, 'level': i, 'max_abs_diff': float(np.abs(Mi - obs['masks'][i]).max())})
+                break
+    for (case, obs, k), resp in zip(plan, out_b):
+        toks = resp.split()
+        if toks[0] != 'ok':
+            raise MachineryError('model refused msalgb: %s' % resp[:80])
+        ctx.traces_validated += 1
+        ref = np.array([float(v) for v in parse_rat_list(toks[1])]) + 1j * np.array([float(v) for v in parse_rat_list(toks[2])])
+        if np.abs(ref - obs['out_b']).max() > TOL * obs['scale']:
+            ctx.disagree('C09 msBackward', {'case': {k2: case[k2] for k2 in ('N', 'w', 's', 'q', 'kind', 'stop', 'seed')},
+                                            'max_abs_diff': float(np.abs(ref - obs['out_b']).max())})
+    for (line, want, cplx_window), resp in zip(teleb, out_tb):
+        toks = resp.split()
+        if toks[0] != 'ok':
+            raise MachineryError('model refused msteleb: %s' % resp[:80])
+        m = dict(t.split('=') for t in toks[1:3])
+        ctx.traces_validated += 1
+        ctx.count('F:teleb:nested=%s,complex-window=%s' % (m['nested'], int(cplx_window)))
+        lhs = np.array([float(v) for v in parse_rat_list(toks[3])]) + 1j * np.array([float(v) for v in parse_rat_list(toks[4])])
+        if m['nested'] != '1':
+            ctx.disagree('C09 backward telescoping', {'what': 'generator made nested supports but the model says nestedOK = false', 'line': line[:200]})
+        elif m['equal'] != '1' or np.abs(lhs - want).max() > TOL * max(1.0, np.abs(want).max()):
+            ctx.disagree('C09 backward telescoping', {'line': line[:200], 'model': resp[:200]})
+    for (line, want, broken), resp in zip(tele, out[len(lines):]):
+        toks = resp.split()
+        if toks[0] != 'ok':
+            raise MachineryError('model refused mstele: %s' % resp[:80])
+        m = dict(t.split('=') for t in toks[1:3])
+        ctx.traces_validated += 1
+        ctx.count('F:tele:nested=%s' % m['nested'])
+        lhs = np.array([float(v) for v in parse_rat_list(toks[3])])
+        if m['nested'] == '1':
+            # the theorem's conclusion, evaluated by the model and recomputed here
+            if m['equal'] != '1' or np.abs(lhs - want).max() > TOL * max(1.0, np.abs(want).max()):
+                ctx.disagree('C09 telescoping', {'line': line[:200], 'model': resp[:200]})
+        elif not broken:
+            ctx.disagree('C09 telescoping', {'what': 'generator made nested supports but the model says nestedOK = false', 'line': line[:200]})
+        else:
+            ctx.count('F:tele:broken-unequal' if m['equal'] == '0' else 'F:tele:broken-equal')
+
+
+# =============================================================================================
 
 def run(ctx):
     ctx.rule = ('A: every order on a range, mode and coefficient counts against the model and against h(h+1)/2. '
@@ -743,9 +1528,20 @@ def run(ctx):
                 '(shape kind, dims, order, aperture kind). C: Lyot identities with real propagators, forward algebra against the model with '
                 'exact linear propagators and arbitrary masks. D: constructed multi-scale coronagraphs on a box of (N, window, s, q) — levels, '
                 'per-level dims/delta/zero, propagator kinds, recovered windows — against the model; non-trivial = at least two levels. '
-                'E: measured on-axis (<1 %) and 10 lambda/D (>50 %) transmission.')
+                'E: measured on-axis (<1 %) and 10 lambda/D (>50 %) transmission. '
+                'B also: the real transformation / transformation_inverse / coeffs are sent to the model, which evaluates the hypotheses of the '
+                'perfectMat theorems on them and the literal operator E - T(c*(T+ E)) on every field (complex apertures in real 2n x 2k form, '
+                'grids with non-constant weights, user-supplied coeffs: constant, ones on the modes of a lower order, random), and the matrix '
+                'get_transformation_matrix_forward() entry by entry. C also: backward of both Lyot coronagraphs on real propagators and on stand-ins, '
+                '<y, forward x> = <backward y, x> on stand-in pairs B = F^H. F: the real MultiScale/Vortex/FQPM constructors and forward/backward '
+                'running on exact linear stand-ins for every Fourier object (13 small configurations, 1-4 levels): masks level by level, '
+                'outputs, wavelength bookkeeping; telescoping identities on generated nested supports.')
     ctx.assumptions += [
-        'LAPACK QR returns orthonormal columns spanning the modes; the truncated-SVD pseudo-inverse of such a matrix is its conjugate transpose',
+        'LAPACK QR + truncated-SVD pseudo-inverse: T+ T = I, T+ = T^H and span(modes) inside range(T) hold up to 1e-9 for the real '
+        'transformation matrices (evaluated exactly by the model on every run; a larger defect is reported as a disagreement)',
+        'multi-scale stand-ins: the algebra of constructor/forward/backward is checked for arbitrary linear operators in place of FFT/MFT/'
+        'Fraunhofer objects; that the real Fourier objects realise the exact-window design of the telescoping theorem is not proved '
+        '(level geometry: part D; leakage: part E)',
         'grid weights are constant (regular grids): power is proportional to the unweighted sum of |E|^2',
         'FQPM off-axis throughput is measured at least 20 degrees away from the quadrant transitions (an ideal FQPM attenuates sources on them)',
         'multi-scale model domain: q > 2/scaling_factor, scaling_factor > 1; when q/2 is an exact power of the scaling factor the float '
@@ -756,6 +1552,7 @@ def run(ctx):
     part_a(ctx)
     part_b(ctx)
     part_c(ctx)
+    part_f(ctx)
     geo = part_e(ctx)
     part_d(ctx, geo)
 
@@ -774,6 +1571,8 @@ def replay(ctx, case):
         bad = levels_oracle(case, observe_levels(case))
     elif part == 'E':
         _, bad = run_leak_case(case)
+    elif part == 'F':
+        _, bad = run_msalg_case(case)
     else:
         raise MachineryError('unknown replay case')
     for key, what in bad:
